@@ -1,1 +1,97 @@
-//! (to be written)
+//! RFC 9114 section 7.2.4: SETTINGS payload = sequence of (identifier varint, value varint).
+
+use crate::varint::{self, Decoded};
+
+pub const QPACK_MAX_TABLE_CAPACITY: u64 = 0x01;
+pub const MAX_FIELD_SECTION_SIZE: u64 = 0x06;
+pub const QPACK_BLOCKED_STREAMS: u64 = 0x07;
+/// RFC 9220
+pub const ENABLE_CONNECT_PROTOCOL: u64 = 0x08;
+/// RFC 9297
+pub const H3_DATAGRAM: u64 = 0x33;
+/// draft-ietf-webtrans-http3
+pub const ENABLE_WEBTRANSPORT: u64 = 0x2b60_3742;
+pub const WEBTRANSPORT_MAX_SESSIONS: u64 = 0x2b60_3743;
+
+/// HTTP/2 settings with no HTTP/3 counterpart (RFC 9114 section 7.2.4.1, 11.2.2)
+pub fn is_h2_reserved(id: u64) -> bool {
+    matches!(id, 0x00 | 0x02 | 0x03 | 0x04 | 0x05)
+}
+
+/// 0x1f * N + 0x21
+pub fn is_grease(id: u64) -> bool {
+    id >= 0x21 && (id - 0x21) % 0x1f == 0
+}
+
+#[derive(Debug, Clone, PartialEq, Eq)]
+pub enum SettingsErr {
+    /// the payload ends inside an entry
+    Truncated,
+    /// "The same setting identifier MUST NOT occur more than once"
+    Duplicate(u64),
+    /// reserved HTTP/2 identifier
+    Reserved(u64),
+}
+
+/// All entries in order; no semantic checks.
+pub fn entries(payload: &[u8]) -> Result<Vec<(u64, u64)>, SettingsErr> {
+    let mut out = Vec::new();
+    let mut p = 0;
+    while p < payload.len() {
+        let Decoded::Ok(id, n) = varint::decode(&payload[p..]) else { return Err(SettingsErr::Truncated) };
+        p += n;
+        let Decoded::Ok(v, n) = varint::decode(&payload[p..]) else { return Err(SettingsErr::Truncated) };
+        p += n;
+        out.push((id, v));
+    }
+    Ok(out)
+}
+
+/// Entries with the RFC's MUST-level checks applied in stream order: the first offending entry
+/// decides the error.
+pub fn parse(payload: &[u8]) -> Result<Vec<(u64, u64)>, SettingsErr> {
+    let mut out: Vec<(u64, u64)> = Vec::new();
+    let mut p = 0;
+    while p < payload.len() {
+        let Decoded::Ok(id, n) = varint::decode(&payload[p..]) else { return Err(SettingsErr::Truncated) };
+        p += n;
+        let Decoded::Ok(v, n) = varint::decode(&payload[p..]) else { return Err(SettingsErr::Truncated) };
+        p += n;
+        if is_h2_reserved(id) {
+            return Err(SettingsErr::Reserved(id));
+        }
+        if out.iter().any(|(i, _)| *i == id) {
+            return Err(SettingsErr::Duplicate(id));
+        }
+        out.push((id, v));
+    }
+    Ok(out)
+}
+
+pub fn get(entries: &[(u64, u64)], id: u64) -> Option<u64> {
+    entries.iter().find(|(i, _)| *i == id).map(|(_, v)| *v)
+}
+
+pub fn encode(entries: &[(u64, u64)]) -> Vec<u8> {
+    let mut out = Vec::new();
+    for (i, v) in entries {
+        out.extend(varint::encode(*i).unwrap());
+        out.extend(varint::encode(*v).unwrap());
+    }
+    out
+}
+
+#[cfg(test)]
+mod tests {
+    use super::*;
+    #[test]
+    fn basics() {
+        assert_eq!(parse(&[0x06, 0x40, 0x64, 0x33, 0x01]), Ok(vec![(6, 100), (0x33, 1)]));
+        assert_eq!(parse(&[0x06, 0x01, 0x06, 0x01]), Err(SettingsErr::Duplicate(6)));
+        assert_eq!(parse(&[0x02, 0x01]), Err(SettingsErr::Reserved(2)));
+        assert_eq!(parse(&[0x06]), Err(SettingsErr::Truncated));
+        assert_eq!(parse(&[0x06, 0x40]), Err(SettingsErr::Truncated));
+        assert!(is_grease(0x21) && is_grease(0x21 + 0x1f * 7) && !is_grease(0x22));
+        assert_eq!(entries(&encode(&[(ENABLE_WEBTRANSPORT, 1)])), Ok(vec![(ENABLE_WEBTRANSPORT, 1)]));
+    }
+}
